@@ -348,6 +348,7 @@ def run_property(mod, tier, seed, replay=None):
     known = {k["id"]: k for k in load_known() if k["property"] == prop}
     nviol = 0
     reported_sigs = set()
+    nshrunk = 0
     first_mismatch = None
     for idx, r in enumerate(results):
         kind = failure_kind(r, strict_model)
@@ -357,8 +358,9 @@ def run_property(mod, tier, seed, replay=None):
             if first_mismatch is None:
                 first_mismatch = (idx, r)
             continue
-        if len(reported_sigs) >= 3:
-            continue
+        if len(reported_sigs) >= 3 or nshrunk >= 24:
+            continue       # enough distinct reports / enough failing cases minimised (bounds a failing run)
+        nshrunk += 1
         small = shrink(prop, mod, r, kind, strict_model)
         fid = mod.classify(small) if hasattr(mod, "classify") else None
         if fid is not None and fid in known and known[fid]["status"] == "known":
